@@ -164,7 +164,13 @@ def gen_case(tp, tier):
                         ['oneshot', rid], ['setfunc', rid], ['enable', rid],
                         ['disable', rid]][k])
         elif r < 89:
-            ops.append(['cmdperiod'])
+            if tp.draw(3) == 0:
+                # CmdPeriod run by a responder in the middle of a packet: the
+                # messages of that packet received but not yet dispatched
+                # still reach the (permanent) responders they are for
+                ops.append(['panic', 1 + tp.draw(3), 1 + tp.draw(3)])
+            else:
+                ops.append(['cmdperiod'])
         elif r < 96:
             cname = tp.choice(['StartUp', 'ServerTree'])
             for _ in range(2 + tp.draw(4)):        # a burst on one registry
@@ -471,6 +477,7 @@ def run_case(case, tape, ctx):
 
     reg = Registry()
     robj = {}
+    special = {}        # the responders of the 'panic' operation
     funcs = {}          # rid -> the callback object it currently uses
     shared = set()      # responders whose callback object another one uses too
     inv = []           # invocation records
@@ -853,6 +860,42 @@ def run_case(case, tape, ctx):
             funcs[rid] = make_func(rid, reg.resp[rid].ver)
             robj[rid].func = funcs[rid]
             bump('op-setfunc')
+        elif kind == 'panic':
+            if 'keep' not in special:
+                def panic_cb(msg, time, addr, recv_port):
+                    inv.append({'rid': 'panic', 'msg': list(msg)})
+                    sac.CmdPeriod.run()
+                special['keep'] = srpd.OscFunc(make_func('probe', 0),
+                                               '/c18/keep')
+                special['keep'].permanent = True
+                special['panic'] = srpd.OscFunc(panic_cb, '/c18/panic')
+                special['panic'].permanent = True
+            mark = len(inv)
+            els = [osc.encode_message('/c18/keep', [i])
+                   for i in range(op[1])]
+            els.append(osc.encode_message('/c18/panic', []))
+            els += [osc.encode_message('/c18/keep', [100 + i])
+                    for i in range(op[2])]
+            w.net.send(('127.0.0.1', 7009), ('127.0.0.1', LIB_PORT),
+                       osc.encode_bundle(1, els), faults=False, delay=50e-6)
+            settle()
+            for r in list(reg.resp.values()):
+                if not r.permanent and not r.freed:
+                    reg.free(r.rid)
+            got = [g['msg'] for g in inv[mark:]
+                   if g['msg'][0].startswith('/c18/')]
+            want = [['/c18/keep', i] for i in range(op[1])] \
+                + [['/c18/panic']] \
+                + [['/c18/keep', 100 + i] for i in range(op[2])]
+            bump('op-cmdperiod-from-responder')
+            if got != want:
+                viol.add('C18-1', 'received-message-dropped-by-cmdperiod',
+                         f'a bundle of {len(want)} messages, the '
+                         f'{op[1] + 1}. of which makes a responder run '
+                         f'CmdPeriod: the permanent responder of /c18/keep '
+                         f'got {[m[1] for m in got if len(m) > 1]}, expected '
+                         f'{[m[1] for m in want if len(m) > 1]}')
+                break
         elif kind == 'cmdperiod':
             sac.CmdPeriod.run()
             for r in list(reg.resp.values()):
